@@ -52,9 +52,25 @@ type cfgT struct {
 	Tested  string   `json:"tested"`
 }
 
+// sharedCache is a long-lived BuildCache value of the child process whose exported
+// configuration fields are rewritten in place before every other operation: a
+// caller may configure one value step by step or reuse it for another
+// configuration, so nothing the cache derives from its configuration may outlive
+// a change of the fields (seeded change C20-a: a memoised key).
+var (
+	sharedCache cache.BuildCache
+	cacheUses   int
+)
+
 func (c cfgT) cache() *cache.BuildCache {
-	return &cache.BuildCache{GOOS: c.GOOS, GOARCH: c.GOARCH, GOROOT: c.GOROOT, GOPATH: c.GOPATH,
-		BuildTags: append([]string{}, c.Tags...), Version: c.Version, TestedPackage: c.Tested}
+	cacheUses++
+	if cacheUses%2 == 0 {
+		return &cache.BuildCache{GOOS: c.GOOS, GOARCH: c.GOARCH, GOROOT: c.GOROOT, GOPATH: c.GOPATH,
+			BuildTags: append([]string{}, c.Tags...), Version: c.Version, TestedPackage: c.Tested}
+	}
+	sharedCache.GOOS, sharedCache.GOARCH, sharedCache.GOROOT, sharedCache.GOPATH = c.GOOS, c.GOARCH, c.GOROOT, c.GOPATH
+	sharedCache.BuildTags, sharedCache.Version, sharedCache.TestedPackage = append([]string{}, c.Tags...), c.Version, c.Tested
+	return &sharedCache
 }
 
 // pkgT describes sources to parse into a sources.Sources.
